@@ -44,6 +44,12 @@ RULE = ('A grid of configurations (num_rounds 0..5, checkpoint_frequency 0..3, '
         'process. Non-trivial = a crash that lands inside a checkpoint write, '
         'between a save and the clean-up of older checkpoints, or after the '
         'last round (final evaluation).')
+RULE += (
+    ' '
+    'Later widenings: real process death (os._exit in a child interpreter under another PYTHO'
+    'NHASHSEED) among the crash points; a state whose pytree structure changes over the round'
+    's, with a weakly typed scalar and a float16 leaf; root_dir given as a file:// URI or wit'
+    'h digits in its name; one schedule in twelve carries a 17 MiB state.')
 ASSUMPTIONS = [
     'crash model: BaseException raised at the effect (no fedjax handler '
     'catches it) + the file being written truncated to a generated prefix; a '
